@@ -65,12 +65,12 @@ impl Keys {
             .entry(name.to_string())
             .or_insert_with(|| {
                 use bc_components::SignatureScheme as S;
-                let schemes = [
-                    // SSH-ECDSA is left out: about one signature in a few hundred fails to parse back from
-                    // its CBOR form ("length invalid", ssh-key 0.6.6 mpint encoding) - see DESIGN, finding D10
-                    (S::Schnorr, "Schnorr"), (S::Ecdsa, "Ecdsa"), (S::Ed25519, "Ed25519"), (S::SshEd25519, "SshEd25519"),
-                    (S::MLDSA44, "MLDSA44"), (S::Schnorr, "Schnorr"), (S::Ed25519, "Ed25519"), (S::Ecdsa, "Ecdsa"),
-                ];
+                // Extensions!DetSigner: s1 signs deterministically, every other signer with fresh randomness.
+                // SSH-ECDSA is left out: about one signature in a few hundred fails to parse back from
+                // its CBOR form ("length invalid", ssh-key 0.6.6 mpint encoding) - see DESIGN, finding D10
+                let det = [(S::Ecdsa, "Ecdsa"), (S::Ed25519, "Ed25519"), (S::SshEd25519, "SshEd25519"), (S::Ed25519, "Ed25519"), (S::Ecdsa, "Ecdsa")];
+                let rnd = [(S::Schnorr, "Schnorr"), (S::MLDSA44, "MLDSA44"), (S::Schnorr, "Schnorr")];
+                let schemes: &[(S, &str)] = if name == "s1" { &det } else { &rnd };
                 let (sch, nm) = &schemes[((salt ^ fnv(name)) % schemes.len() as u64) as usize];
                 let (private, public) = sch.keypair_opt("verif@example");
                 std::rc::Rc::new(SignerKey { private, public, ssh: nm.starts_with("Ssh"), scheme: nm.to_string() })
